@@ -25,6 +25,20 @@ func ctxParams(ctx *types.Context) []string {
 
 type mxEnv struct {
 	hs *mux.Hosts
+	// matchers are kept for the whole case: one matcher object answers many requests
+	matchers map[string]mux.Matcher
+}
+
+func (e *mxEnv) matcher(key string, mk func() mux.Matcher) mux.Matcher {
+	if e.matchers == nil {
+		e.matchers = map[string]mux.Matcher{}
+	}
+	if m, ok := e.matchers[key]; ok {
+		return m
+	}
+	m := mk()
+	e.matchers[key] = m
+	return m
 }
 
 func (e *mxEnv) exec(o []string) []string {
@@ -35,7 +49,7 @@ func (e *mxEnv) exec(o []string) []string {
 		init, _ := takeList(rest[1:])
 		var out []string
 		cls := guard(func() {
-			m := mux.NewPathVersion(o[1], append([]string{}, vs...)...)
+			m := e.matcher("pv\x00"+o[1]+"\x00"+strings.Join(vs, "\x00"), func() mux.Matcher { return mux.NewPathVersion(o[1], append([]string{}, vs...)...) })
 			ctx := types.NewContext()
 			defer ctx.Destroy()
 			for i := 0; i+1 < len(init); i += 2 {
@@ -56,7 +70,7 @@ func (e *mxEnv) exec(o []string) []string {
 		init, _ := takeList(rest2)
 		var out []string
 		cls := guard(func() {
-			m := mux.NewHeaderVersion(o[1], o[2], func(error) {}, vs...)
+			m := e.matcher("hv\x00"+o[1]+"\x00"+o[2]+"\x00"+strings.Join(vs, "\x00"), func() mux.Matcher { return mux.NewHeaderVersion(o[1], o[2], func(error) {}, vs...) })
 			ctx := types.NewContext()
 			defer ctx.Destroy()
 			for i := 0; i+1 < len(init); i += 2 {
@@ -139,17 +153,48 @@ func execMX(ops [][]string, w *W) {
 
 var verPool = []string{"v1", "v11", "/v1", "v1/", "/v2/", "v1/x", "1", "v", "//v3", "v1//", "api/v1", "\xff", "V1", "v 1", "/"}
 
+func hvOp(name, key string, vs []string, accept string, init []string) []string {
+	_, ps, err := mime.ParseMediaType(accept)
+	var kv []string
+	keys := make([]string, 0, len(ps))
+	for kk := range ps {
+		keys = append(keys, kk)
+	}
+	sort.Strings(keys)
+	for _, kk := range keys {
+		kv = append(kv, kk, ps[kk])
+	}
+	op := append([]string{"hv", name, key}, list(vs...)...)
+	op = append(op, accept, b2s(err == nil))
+	op = append(op, list(kv...)...)
+	op = append(op, list(init...)...)
+	return op
+}
+
 func genC15(r *rand.Rand, w *W) [][]string {
 	var ops [][]string
-	for i := 0; i < 12; i++ {
-		name := pick(r, []string{"", "ver", "version", "id"})
-		var vs []string
+	// two or three matcher configurations per case, each used for several requests (the same object every time)
+	type spec struct {
+		name string
+		vs   []string
+	}
+	var specs []spec
+	for k := 2 + r.Intn(2); k > 0; k-- {
+		sp := spec{name: pick(r, []string{"", "ver", "version", "id"})}
 		for k := r.Intn(4); k >= 0; k-- {
-			vs = append(vs, pick(r, verPool))
+			sp.vs = append(sp.vs, pick(r, verPool))
+		}
+		if r.Intn(4) == 0 {
+			sp.vs = append(sp.vs, pick(r, []string{"beta", "Beta", "rc1"}))
 		}
 		if r.Intn(25) == 0 {
-			vs = append(vs, "")
+			sp.vs = append(sp.vs, "")
 		}
+		specs = append(specs, sp)
+	}
+	for i := 0; i < 12; i++ {
+		sp := pick(r, specs)
+		name, vs := sp.name, sp.vs
 		var init []string
 		if r.Intn(2) == 0 {
 			init = append(init, pick(r, []string{"ver", "x", "id"}), pick(r, []string{"old", "", "/v0"}))
@@ -199,7 +244,8 @@ func genC15(r *rand.Rand, w *W) [][]string {
 			case 3:
 				accept = "application/json; charset=utf-8; " + k + "=\"" + v + "\""
 			case 4:
-				accept = "application/json; " + strings.ToUpper(k) + "=" + v
+				accept = pick(r, []string{"application/json; " + strings.ToUpper(k) + "=" + v, "application/json; " + k + "=" + strings.ToUpper(v),
+					"Application/JSON; " + k + "=" + strings.ToLower(v), "APPLICATION/JSON; " + k + "=" + v})
 			case 5:
 				accept = "text/html, application/json; " + k + "=" + v
 			case 6:
@@ -209,22 +255,30 @@ func genC15(r *rand.Rand, w *W) [][]string {
 			default:
 				accept = "application/vnd.api+json; " + k + "=" + v
 			}
-			_, ps, err := mime.ParseMediaType(accept)
-			var kv []string
-			keys := make([]string, 0, len(ps))
-			for kk := range ps {
-				keys = append(keys, kk)
-			}
-			sort.Strings(keys)
-			for _, kk := range keys {
-				kv = append(kv, kk, ps[kk])
-			}
-			op := append([]string{"hv", name, key}, list(vs...)...)
-			op = append(op, accept, b2s(err == nil))
-			op = append(op, list(kv...)...)
-			op = append(op, list(init...)...)
-			ops = append(ops, op)
+			ops = append(ops, hvOp(name, key, vs, accept, init))
 			w.Count("hv")
+			if r.Intn(4) == 0 {
+				// the same matcher asked again with a header that differs only in letter case (media type and
+				// parameter names are case-insensitive, the version is not), in either order
+				flip := func(s string) string {
+					b := []byte(s)
+					for i, c := range b {
+						if c >= 'a' && c <= 'z' {
+							b[i] = c - 32
+						} else if c >= 'A' && c <= 'Z' {
+							b[i] = c + 32
+						}
+					}
+					return string(b)
+				}
+				a1 := "application/json; " + k + "=" + v
+				a2 := pick(r, []string{"application/json; " + k + "=" + flip(v), flip(a1), "Application/Json; " + k + "=" + v})
+				if r.Intn(2) == 0 {
+					a1, a2 = a2, a1
+				}
+				ops = append(ops, hvOp(name, key, vs, a1, nil), hvOp(name, key, vs, a2, nil), hvOp(name, key, vs, a1, nil))
+				w.Count("hv-case-variants")
+			}
 		}
 	}
 	return ops
@@ -287,6 +341,21 @@ func genC14(r *rand.Rand, w *W) [][]string {
 		}
 		_ = orig
 		ops = append(ops, op)
+	}
+	if r.Intn(4) == 0 {
+		// a rule name that is a regexp until an interceptor of that name is registered: the same domain text is
+		// added, deleted, and added again after the registration
+		rule := pick(r, []string{"wrd", "abc", "x1"})
+		d := "{sub:" + rule + "}." + pick(r, []string{"late.example.net", "example.io"})
+		tail := d[strings.Index(d, "}")+1:]
+		ops = append(ops, []string{"hadd", d}, []string{"hmatch", rule + tail, "0"}, []string{"hmatch", "zz9" + tail, "0"})
+		if r.Intn(3) != 0 {
+			ops = append(ops, []string{"hdel", d})
+		}
+		ops = append(ops, []string{"hicpt", rule, pick(r, []string{"word", "any", "digit"})})
+		ops = append(ops, []string{"hadd", d}, []string{"hdump"}, []string{"hmatch", rule + tail, "0"}, []string{"hmatch", "zz9" + tail, "0"}, []string{"hmatch", "77" + tail, "0"})
+		pool = append(pool, d)
+		w.Count("shape-rule-becomes-interceptor")
 	}
 	n := 3 + r.Intn(10)
 	for i := 0; i < n; i++ {
